@@ -60,7 +60,9 @@ Theorem realm_no_identity_leak_event_proof : forall cfg pre o post y sub pubid d
       dget det "publisher_authrole" = Some (vstr "trusted") /\
       exists z zs dt ds t,
         find_session (r_clients r) z = Some zs /\ nget (r_testaments r) z = Some (dt, ds) /\ In t (dt ++ ds) /\
-        opt_bool (t_opts t) "disclose_me" = true /\ a = t_args t /\ k = t_kw t)).
+        opt_bool (t_opts t) "disclose_me" = true /\ a = t_args t /\ k = t_kw t /\
+        (* the testament's owner departs in this step *)
+        find_session (r_clients (fst (step r o))) z = None)).
 Proof.
   intros cfg pre o post y sub pubid det a k ops r Ho Hk Hin Hd.
   destruct (reach_prefix cfg pre o post Ho Hk) as (_ & _ & W & M & Ec). fold r in W, M, Ec.
@@ -94,7 +96,9 @@ Theorem realm_no_identity_leak_event_noauthz_proof : forall cfg pre o post y sub
       dget det "publisher_authrole" = Some (vstr "trusted") /\
       exists z zs dt ds t,
         find_session (r_clients r) z = Some zs /\ nget (r_testaments r) z = Some (dt, ds) /\ In t (dt ++ ds) /\
-        opt_bool (t_opts t) "disclose_me" = true /\ a = t_args t /\ k = t_kw t)).
+        opt_bool (t_opts t) "disclose_me" = true /\ a = t_args t /\ k = t_kw t /\
+        (* the testament's owner departs in this step *)
+        find_session (r_clients (fst (step r o))) z = None)).
 Proof.
   intros cfg pre o post y sub pubid det a k ops r Ha Ho Hk Hin Hd.
   destruct (reach_prefix cfg pre o post Ho Hk) as (_ & _ & _ & _ & Ec). fold r in Ec.
